@@ -10,7 +10,7 @@
      wf   <ty>                    -> 0/1              Model/CodecDom.v wf_ty
      dom  <ty> <val>              -> 0/1              in_dom
      norm <ty> <val>              -> <val>            norm
-   <kind>: 0 bytes/bytearray, 1 str, 2 list, 3 tuple (n_bytes returns its argument's slice).
+   <kind>: 0 bytes/bytearray, 1 str (then a text token), 2 list, 3 tuple (n_bytes returns its argument's slice).
    <code>: Base/Res.v exn_code (1 DataError, 2 BufferEmpty, 10.. foreign). *)
 From Coq Require Import String.
 From PV Require Import Base.Bytes Base.Proto Base.Res Gen.Types Gen.CodecFacts Model.Codec Model.CodecDom.
@@ -92,8 +92,9 @@ Fixpoint parse_ty (fuel : nat) (ts : list tok) : option (ty * list tok) :=
             match r with
             | Proto.TInt cap :: r1 =>
                 match parse_ty f r1 with
-                | Some (lt, r2) => match is_int_ty lt with Some (sg, w) => Some (TFixedStr (Z.to_nat cap) sg w, r2) | None => None end
-                | None => None
+                | Some (lt, Proto.TInt capacity :: r2) =>
+                    match is_int_ty lt with Some (sg, w) => Some (TFixedStr (Z.to_nat cap) sg w (Z.to_nat capacity), r2) | None => None end
+                | _ => None
                 end
             | _ => None
             end
@@ -185,7 +186,8 @@ Fixpoint print_val (v : val) : list tok :=
 
 Definition print_enc (t : ty) (v : val) (r : res bytes) : list tok :=
   match r with
-  | Ok bs => [sym "ok"; Proto.TInt (encode_result_kind t v); TBytes bs]
+  | Ok bs => let k := encode_result_kind t v in
+             [sym "ok"; Proto.TInt k; if k =? 1 then TText bs else TBytes bs]
   | Err e => [sym "err"; Proto.TInt (exn_code e)]
   end.
 Definition print_dres (r : dres) : list tok :=
@@ -236,7 +238,35 @@ Definition handle (ts : list tok) : list tok :=
   | [] => bad
   end.
 
+(* Base/Proto.v's line parser with linear-time reversal (List.rev is quadratic, and this
+   co-process receives 65535-character strings as one token) *)
+Definition lrev {A} (l : list A) : list A := rev_append l [].
+Fixpoint fsplit_sp (cs : list Z) (cur : list Z) (acc : list (list Z)) : list (list Z) :=
+  match cs with
+  | [] => lrev (if cur then acc else lrev cur :: acc)
+  | c :: r => if c =? 32 then fsplit_sp r [] (if cur then acc else lrev cur :: acc)
+              else fsplit_sp r (c :: cur) acc
+  end.
+Fixpoint fhex_groups (fuel : nat) (k : nat) (cs : list Z) (acc : list Z) : option (list Z) :=
+  match cs with
+  | [] => Some (lrev acc)
+  | _ => match fuel with
+         | O => None
+         | S f => match hex_group k cs 0 with
+                  | Some (v, r) => fhex_groups f k r (v :: acc)
+                  | None => None
+                  end
+         end
+  end.
+Definition fparse_tok (w : list Z) : tok :=
+  match w with
+  | 120 :: r (* x *) => match fhex_groups (length r) 2 r [] with Some bs => TBytes bs | None => TSym w end
+  | 117 :: r (* u *) => match fhex_groups (length r) 6 r [] with Some cs => TText cs | None => TSym w end
+  | _ => parse_tok w
+  end.
+Definition fparse_line (cs : list Z) : list tok := map fparse_tok (fsplit_sp cs [] []).
+
 Definition init_state : unit := tt.
-Definition step_line (s : unit) (line : list Z) : unit * list Z := (s, run_line handle line).
+Definition step_line (s : unit) (line : list Z) : unit * list Z := (s, print_line (handle (fparse_line line))).
 
 Extraction "../ocaml/gen/codec_model.ml" init_state step_line.
